@@ -229,6 +229,11 @@ func FailKind(msg string) string {
 
 // Run compiles src on a fresh engine and invokes it once.
 func Run(b Backend, h *Host, src string, env EnvSpec, ops ...oper.Operator) (o *Obs) {
+	return Run2(b, h, src, env, env, ops...)
+}
+
+// Run2 compiles against env and invokes with callEnv.
+func Run2(b Backend, h *Host, src string, env, callEnv EnvSpec, ops ...oper.Operator) (o *Obs) {
 	o = &Obs{}
 	if h != nil {
 		*h.Trace = (*h.Trace)[:0]
@@ -255,7 +260,7 @@ func Run(b Backend, h *Host, src string, env EnvSpec, ops ...oper.Operator) (o *
 		o.CompileErr = err.Error()
 		return
 	}
-	varg, err := env.CallArg()
+	varg, err := callEnv.CallArg()
 	if err != nil {
 		o.RunErr = "harness: " + err.Error()
 		return
